@@ -27,11 +27,11 @@ def run(chk, repo):
     chk.rule("C10-W2", "caller's option dicts are only unpacked or read", 2)
     chk.rule("C10-W3", "no module-level state is written and nothing is memoised on the open path", 1)
     chk.rule("C10-W4", "groups are adjusted on copies only; move_items pops from a deep copy", 2)
-    w1(chk, op)
-    w2(chk, op)
-    w3(chk, op)
-    w4(chk, op)
-    g3_threading(chk, op, "C10-G3")
+    chk.attempt(w1, chk, op)
+    chk.attempt(w2, chk, op)
+    chk.attempt(w3, chk, op)
+    chk.attempt(w4, chk, op)
+    chk.attempt(g3_threading, chk, op, "C10-G3")
     chk.count("functions", len(op.reach))
 
 
